@@ -22,7 +22,7 @@ RULE = (
 )
 REQUIRED = ["automorphism_count_checked", "orbits_checked", "nontrivial_groups", "disconnected_graphs",
             "autoest_coarsening_checked", "autoest_strictly_coarser", "dedup_contract_evals", "dedup_dropped_something",
-            "pruning_differential_runs", "pruning_removed_matches", "pruning_symmetry_reference_checked"]
+            "pruning_differential_runs", "pruning_removed_matches", "pruning_symmetry_reference_checked", "graphs_with_omitted_default_attributes"]
 ASSUMPTIONS = [
     "Automorphism defaults: missing element '*', charge 0, order 1.0 (the class's documented defaults)",
     "AutoEst compared against the automorphism group of the whole graph (component swaps included: WL colours are invariant under them)",
@@ -56,7 +56,7 @@ def auto_ok():
     return node_ok, edge_ok
 
 
-def check_graph(ctx, G, tag, key):
+def check_graph(ctx, G, tag, key, with_est=True):
     from synkit.Graph.Matcher.automorphism import Automorphism
     from synkit.Graph.Matcher.auto_est import AutoEst
 
@@ -94,7 +94,8 @@ def check_graph(ctx, G, tag, key):
         if anc is None or frozenset(anc) not in {frozenset(c.nodes) for c in comps} or len(anc) != max(len(c) for c in comps):
             ctx.violation("anchor", wit, f"anchor component {anc} is not a largest component")
     # ---- WL estimate is a coarsening of the true orbits (same attribute selection) ---- #
-    for nattrs, eattrs in ((["element", "charge"], ["order"]), (["element", "charge", "aromatic", "hcount"], ["order"])):
+    # (AutoEst has no documented defaults for absent attributes: graphs with omitted attributes skip this part)
+    for nattrs, eattrs in ((["element", "charge"], ["order"]), (["element", "charge", "aromatic", "hcount"], ["order"])) if with_est else ():
         nk = lambda a, b, _k=nattrs: all(a.get(k) == b.get(k) for k in _k)
         ek = lambda a, b, _k=eattrs: all(a.get(k) == b.get(k) for k in _k)
         true_orb = B.orbits_from(list(G.nodes), B.automorphisms(G, nk, ek))
@@ -120,6 +121,22 @@ def check_graph(ctx, G, tag, key):
     ctx.case(key, nontrivial=want_n > 1 or G.number_of_nodes() >= 4,
              sample={"space": tag, **wit, "automorphisms": want_n, "orbits": sorted(map(sorted, want_orb))}
              if (ctx.evaluations < 2 or rng.random() < 0.001) else None)
+
+
+def sparse_attrs(G, rng):
+    """the same labelled graph with default-valued attributes left out on some nodes/edges (charge 0, order 1.0):
+    by the class's documented defaults this is the same input."""
+    H = G.copy()
+    n = 0
+    for _, d in H.nodes(data=True):
+        if d.get("charge", None) == 0 and rng.random() < 0.5:
+            del d["charge"]
+            n += 1
+    for _, _, d in H.edges(data=True):
+        if d.get("order", None) in (1, 1.0) and rng.random() < 0.5:
+            del d["order"]
+            n += 1
+    return H, n
 
 
 def check_dedup_direct(ctx):
@@ -172,6 +189,11 @@ def run(ctx):
             if ctx.mine(idx):
                 G, _ = WG.scramble(WG.to_nx(r), rng)
                 check_graph(ctx, G, tag, ("cls", tag, i))
+                if idx % 3 == ctx.seed % 3:
+                    G2, k = sparse_attrs(G, rng)
+                    if k:
+                        ctx.count("graphs_with_omitted_default_attributes")
+                        check_graph(ctx, G2, tag + " / default-valued attributes omitted on some atoms", ("cls-sparse", tag, i, WG.describe(G2)), with_est=False)
         ctx.exhaustive[tag] = True
     for t, (name, G) in enumerate(WG.symmetric_families().items()):
         if ctx.mine(t) and G.number_of_nodes() <= (9 if ctx.quick else 12):
@@ -187,6 +209,11 @@ def run(ctx):
                           orders=rng.choice([(1,), (1, 1, 2)]), p_charge=0.1, hmax=rng.choice([0, 2]))
         G, _ = WG.scramble(G, rng)
         check_graph(ctx, G, "random graphs", ("rnd", WG.describe(G)))
+        if t % 2 == 0:
+            G2, k = sparse_attrs(G, rng)
+            if k:
+                ctx.count("graphs_with_omitted_default_attributes")
+                check_graph(ctx, G2, "random graphs / default-valued attributes omitted on some atoms", ("rnd-sparse", WG.describe(G2)), with_est=False)
     check_dedup_direct(ctx)
     # ---- pruning differential on the reactor ---- #
     from checks import reactor_common as RC
@@ -201,7 +228,8 @@ def replay(ctx, v):
     install()
     w = v["witness"]
     if "graph" in w:
-        check_graph(ctx, WG.from_desc(w["graph"]), "replay", ("replay",))
+        sparse = any(r[3] is None for r in w["graph"]["nodes"]) or any(r[2] is None for r in w["graph"]["edges"])
+        check_graph(ctx, WG.from_desc(w["graph"]), "replay", ("replay",), with_est=not sparse)
     elif "template_rid" in w or "rsmi" in w or "template" in w:
         from checks import reactor_common as RC
         RC.replay_pruning(ctx, w)
